@@ -426,7 +426,9 @@ static Plan gen_history(const string &prop, const string &cfg, uint64_t seed, lo
     // transient failures - the same address failing once and working later - belong to C19.
     unsigned frate = faults ? 2 + (unsigned)sim_below(&f, 59) : 0;       // percent of pool addresses that do not convert
     std::map<string, Op> world;
-    if (frate) for (auto &a : pool) if (!world.count(a)) { Op w0; if (sim_below(&f, 100) < frate) draw_fault(f, w0); world[a] = w0; }
+    // (always at the FIRST converter call of a validation: "this name does not convert" is a fact about the name; a failure of
+    //  the second or third call only would make the outcome depend on how many calls a build happens to make)
+    if (frate) for (auto &a : pool) if (!world.count(a)) { Op w0; if (sim_below(&f, 100) < frate) { draw_fault(f, w0); w0.f_at = 1; } world[a] = w0; }
     // failing allocations inside eav_is_email (C13, one fault plan in three): the unchanged tree asserts; whatever the
     // library does instead must be what a fresh object does under the same failure
     sim_rng af = sim_derive(rs, 7);
